@@ -22,12 +22,12 @@ ALL = ops.BINARY + ops.UNARY + REG
 
 
 def floors(tier):
-    f = {'distinct_nontrivial': 300 if tier == 'quick' else 4000, 'first_calls_with_generation_seen': 300,
+    f = {'distinct_nontrivial': 700 if tier == 'quick' else 4000, 'first_calls_with_generation_seen': 300,
          'repeat_calls_checked': 2000, 'interleaved_other_calls': 300}
     for k in KINDS:
         f['repeat_kind_' + k] = 100
     for o in ALL:
-        f['op_' + o] = 6 if tier == 'quick' else 80
+        f['op_' + o] = 15 if tier == 'quick' else 80
     return f
 
 
@@ -39,7 +39,7 @@ def plan(tier, seed):
                 {'named': '2DPGA'}, {'p': 4, 'q': 0, 'r': 0}, {'p': 2, 'q': 1, 'r': 0, 'opts': {'wrapper': 'wraps'}},
                 {'p': 1, 'q': 1, 'r': 1}, {'p': 3, 'q': 1, 'r': 0}, {'p': 2, 'q': 0, 'r': 0, 'opts': {'symcls': 'sympy'}},
                 {'p': 1, 'q': 0, 'r': 1}, {'p': 0, 'q': 2, 'r': 0}]
-        per, nshards = 1, 16
+        per, nshards = 3, 16
     else:
         cfgs = gen.sig_orderings(2, 3) + gen.pqr_all(4, 4) + gen.NAMED[:2]
         cfgs += [dict(c, opts={'cse': False}) for c in rng.sample(gen.sig_orderings(2, 3), 8)]
